@@ -70,6 +70,15 @@ def sweep_job():
                   correlation=corr.name, depth=None if bad is None else depths[bad],
                   costs=None if bad is None else [costs[bad], costs[bad + 1]])
         n += len(costs)
+        # the cost of one well as the simulator computes it (real function, every depth of the range incl. both ends), for
+        # cheap and expensive per-metre fallbacks and adjustment factors: non-decreasing wherever the chosen correlation applies
+        for per_m, factor in ((1000.0, 1.0), (3000.0, 1.0), (10000.0, 0.7), (100.0, 2.5)):
+            real = [Ec.calculate_cost_of_one_vertical_well(_M(), d, corr, per_m, 'x', factor) for d in depths]
+            bad = next((i for i in range(len(real) - 1) if real[i + 1] < real[i] * (1 - 1e-12)), None)
+            mon.check('well-cost-monotone-in-depth', bad is None, mechanism='C18/cost-of-one-well-decreases-with-depth:' + corr.name,
+                      correlation=corr.name, per_metre_cost=per_m, factor=factor, depth=None if bad is None else depths[bad],
+                      costs=None if bad is None else [real[bad], real[bad + 1]])
+            n += len(real)
     return {'mon': mon.dump(), 'calls': n, 'correlations': len(list(WellDrillingCostCorrelation))}
 
 
